@@ -83,7 +83,10 @@ def abstract_real(case, line):
     p = deps_check.parse_line(line)
     dofile = lambda f: case.names.get(f, "").endswith(".do") or f == 0
     fs = " ".join("%d=%s" % (f, t) for f, t in sorted(p["fs"].items()) if not dofile(f))
-    db = " ".join("%d:%s:%s:%s:%s:%s" % (f, "g" if r["gen"] else "-", r["checked"], r["changed"], r["failed"], r["stamp"])
+    # `checked` marks are left out: which clean files a dirtiness walk happens to visit before it meets the first dirty
+    # one depends on the order of the walk (the real tool and the full model follow the row order of the Deps table,
+    # the core the declared order); the marks are a cache and the full-model comparison checks them exactly
+    db = " ".join("%d:%s:%s:%s:%s" % (f, "g" if r["gen"] else "-", r["changed"], r["failed"], r["stamp"])
                   for f, r in sorted(p["db"].items()) if not dofile(f)
                   # a row that only exists (declared as a dependency, never examined) carries no information
                   and not (not r["gen"] and r["checked"] == r["changed"] == r["failed"] == "-" and r["stamp"] == "none"))
